@@ -9,7 +9,7 @@ _g = nx.DiGraph()
 _g.add_edge(1, 2)
 list(nx.topological_generations(_g))
 
-SINK = {'rows': [], 'config': [], 'hook': None}
+SINK = {'rows': [], 'config': [], 'hook': None, 'tags': {}}
 
 
 class RecEmitter(Emitter):
@@ -19,6 +19,8 @@ class RecEmitter(Emitter):
     def emit(self, data):
         if data['table'] == 'history':
             SINK['rows'].append(data['data'])
+            SINK['tags'].setdefault(self.config.get('tag'), []).append(
+                data['data'])
         else:
             SINK['config'].append(data['data'])
         if SINK['hook'] is not None:
@@ -31,6 +33,7 @@ emitter_registry.register('vsym_rec', RecEmitter)
 def reset_sink(hook=None):
     SINK['rows'] = []
     SINK['config'] = []
+    SINK['tags'] = {}
     SINK['hook'] = hook
     return SINK
 
